@@ -5,6 +5,7 @@ package explore
 import (
 	"encoding/json"
 	"fmt"
+	"os"
 	"hash/fnv"
 	"strings"
 	"time"
@@ -43,10 +44,15 @@ type node struct {
 	enabled []int
 	ops     []*vsched.Op // por only: pending op per enabled thread
 	sleep0  []int        // por only: sleep set on arrival (thread node) / at the choice (data node)
+	only    []int        // hbpor, revisited state: the threads whose transitions are still to be explored from here (nil = all that are awake)
 	sig     uint32
 }
 
 type runner struct {
+	x         *Explorer
+	cache     bool // hb / dbc: prune at states whose happens-before fingerprint was seen before
+	budget    int  // dbc: deviation bound of the current level
+	pruned    bool
 	por       bool
 	prefix    []int
 	sigs      []uint32
@@ -137,6 +143,22 @@ func (r *runner) PickThread(e *vsched.Exec, en []int) int {
 		}
 		return k
 	}
+	if r.cache {
+		// the subtree below this node is a function of (partial order executed so far, thread the
+		// default schedule continues with, deviations left); explore it once
+		extra := 0
+		if r.x.cfg.Strategy == "dbc" {
+			extra = en[0] + 1
+		}
+		left := 0
+		if r.x.cfg.Strategy == "dbc" {
+			left = r.budget - r.devs
+		}
+		if r.x.seen(e.HBKey(extra), left) {
+			r.pruned = true
+			return -1
+		}
+	}
 	k := 0
 	if r.por {
 		nd.sleep0 = append([]int(nil), r.sleep...)
@@ -144,8 +166,52 @@ func (r *runner) PickThread(e *vsched.Exec, en []int) int {
 		for i, t := range en {
 			nd.ops[i] = e.Pending(t)
 		}
+		if r.x.cfg.Strategy == "hbpor" {
+			// sleep sets combined with state caching (Godefroid): a state reached again with a sleep set that
+			// contains the one it was explored with needs nothing more; otherwise only the transitions that
+			// were asleep then and are awake now are explored, and the stored set shrinks to the intersection.
+			var m uint64
+			for _, z := range r.sleep {
+				m |= 1 << uint(z)
+			}
+			if e.NumThreads() > 64 {
+				r.diverged = "hbpor: more than 64 threads"
+				return -1
+			}
+			key := e.HBKey(0)
+			if old, ok := r.x.sleepCache[key]; ok {
+				if old&^m == 0 {
+					r.pruned = true
+					return -1
+				}
+				r.x.sleepCache[key] = old & m
+				todo := old &^ m
+				for _, t := range en {
+					if todo&(1<<uint(t)) != 0 {
+						nd.only = append(nd.only, t)
+					}
+				}
+				if len(nd.only) == 0 {
+					// the transitions still owed are not enabled here: cannot happen (a sleeping transition stays enabled)
+					r.diverged = "hbpor: owed transitions not enabled"
+					return -1
+				}
+				r.x.Revisits++
+			} else if len(r.x.sleepCache) < MaxCache {
+				r.x.sleepCache[key] = m
+			} else {
+				r.x.cacheFull = true
+			}
+		}
 		k = -1
 		for i, t := range en {
+			if nd.only != nil {
+				if contains(nd.only, t) {
+					k = i
+					break
+				}
+				continue
+			}
 			if !contains(r.sleep, t) {
 				k = i
 				break
@@ -202,9 +268,17 @@ type Explorer struct {
 	stop  bool
 	start time.Time
 
+	curBound int
+	dataNodes, dataAlts, thrNodes, thrAlts int64
+
 	splitCounter int64
 	ownCounter   int64
 	Blocked      int64
+	Pruned       int64
+	visited      map[[2]uint64]int16 // hb fingerprint -> largest deviation budget it was explored with
+	sleepCache   map[[2]uint64]uint64 // hbpor: hb fingerprint -> sleep set (thread mask) the state was explored with
+	Revisits     int64
+	cacheFull    bool
 	MaxDepth     int
 	MaxStepsSeen int
 	levelExecs   []int64
@@ -238,8 +312,35 @@ type execOut struct {
 	ok bool // complete execution (not sleep-blocked, not diverged)
 }
 
+// MaxCache bounds the number of fingerprints kept per process (beyond it states are simply
+// re-explored, which costs time but not soundness).
+var MaxCache = 12_000_000
+
+// seen reports whether the state was already explored with at least this deviation budget, and
+// records it otherwise.
+func (x *Explorer) seen(k [2]uint64, budget int) bool {
+	if budget > 30000 {
+		budget = 30000
+	}
+	if b, ok := x.visited[k]; ok && int(b) >= budget {
+		return true
+	}
+	if len(x.visited) < MaxCache {
+		x.visited[k] = int16(budget)
+	} else {
+		x.cacheFull = true
+	}
+	return false
+}
+
+func (x *Explorer) cached() bool { return x.cfg.Strategy == "hb" || x.cfg.Strategy == "dbc" }
+
 func (x *Explorer) runOnce(prefix []int, sigs []uint32, initSleep []int, trace bool) execOut {
-	r := &runner{por: x.cfg.Strategy == "por", prefix: prefix, sigs: sigs, initSleep: initSleep}
+	r := &runner{x: x, por: x.cfg.Strategy == "por" || x.cfg.Strategy == "hbpor", prefix: prefix, sigs: sigs, initSleep: initSleep}
+	if x.cached() && !trace {
+		r.cache = true
+		r.budget = x.curBound
+	}
 	if r.por && len(prefix) == 0 {
 		r.sleep = nil
 	}
@@ -411,10 +512,14 @@ func (x *Explorer) explore(prefix []int, sigs []uint32, initSleep []int, depth, 
 	}
 	if !o.ok {
 		if owned {
-			x.Blocked++
+			if o.r.pruned {
+				x.Pruned++
+			} else {
+				x.Blocked++
+			}
 		}
 	} else if owned {
-		if x.cfg.Strategy == "por" || depth == bound {
+		if x.cfg.Strategy == "por" || x.cfg.Strategy == "hbpor" || x.cfg.Strategy == "hb" || depth == bound || (x.cfg.Strategy == "dbc" && depth > 0) {
 			// db: executions with fewer deviations than the current level were accounted at their own level
 			x.account(o)
 			for len(x.levelExecs) <= depth {
@@ -424,19 +529,31 @@ func (x *Explorer) explore(prefix []int, sigs []uint32, initSleep []int, depth, 
 		}
 	}
 	nodes := o.r.nodes
+	if x.cached() {
+		for i := len(prefix); i < len(nodes); i++ {
+			if nodes[i].data {
+				x.dataNodes++
+				x.dataAlts += int64(nodes[i].n - 1)
+			} else {
+				x.thrNodes++
+				x.thrAlts += int64(nodes[i].n - 1)
+			}
+		}
+	}
 	ch := choicesOf(nodes)
 	sg := sigsOf(nodes)
-	por := x.cfg.Strategy == "por"
+	por := x.cfg.Strategy == "por" || x.cfg.Strategy == "hbpor"
 	if !por && depth >= bound {
 		return
 	}
+
 	for i := len(prefix); i < len(nodes); i++ {
 		nd := nodes[i]
 		if por && !nd.data {
 			done := []int{nd.enabled[nd.chosen]}
 			for k := 0; k < nd.n; k++ {
 				t := nd.enabled[k]
-				if k == nd.chosen || contains(nd.sleep0, t) {
+				if k == nd.chosen || contains(nd.sleep0, t) || (nd.only != nil && !contains(nd.only, t)) {
 					continue
 				}
 				// sleep set for the child: (sleep0 ∪ earlier siblings) independent of t's op
@@ -509,6 +626,9 @@ func Run(cfg Config, sc Scenario) *reg.Result {
 	if name == "" && cfg.Ctx != nil {
 		name = cfg.Ctx.Part
 	}
+	if ov := os.Getenv("VERIF_STRATEGY_DB"); ov != "" && cfg.Strategy == "db" && cfg.Bound > 0 {
+		cfg.Strategy = ov // experiments / cross-validation of the cached strategy against plain db
+	}
 	x := &Explorer{cfg: cfg, sc: sc, Res: reg.NewResult(name), start: time.Now()}
 	res := x.Res
 	if cfg.Ctx != nil && cfg.Ctx.Replay != nil {
@@ -540,13 +660,44 @@ func Run(cfg Config, sc Scenario) *reg.Result {
 		nsh = cfg.Ctx.NShards
 	}
 	completed := -1
-	if cfg.Strategy == "por" {
+	vsched.TrackHB = x.cached() || cfg.Strategy == "hbpor"
+	defer func() { vsched.TrackHB = false }()
+	if cfg.Strategy == "hb" {
+		x.visited = map[[2]uint64]int16{}
+		x.curBound = 30000
 		split := 2
 		if nsh == 1 {
 			split = 0
 		}
 		x.explore(nil, nil, nil, 0, 1<<30, split, nsh == 1)
 		if !x.stop {
+			res.Bound = "hb: all interleavings of the harness, explored once per happens-before state"
+		} else {
+			res.Exhaustive = false
+			res.Bound = "hb: not completed within the budget"
+		}
+		res.Notes["hb_states"] = len(x.visited)
+		res.Notes["hb_pruned"] = x.Pruned
+		res.Notes["hb_cache_full"] = x.cacheFull
+		res.Notes["hb_nodes"] = fmt.Sprintf("thread nodes %d (alts %d), data nodes %d (alts %d)", x.thrNodes, x.thrAlts, x.dataNodes, x.dataAlts)
+	} else if cfg.Strategy == "por" || cfg.Strategy == "hbpor" {
+		if cfg.Strategy == "hbpor" {
+			x.sleepCache = map[[2]uint64]uint64{}
+		}
+		split := 2
+		if nsh == 1 {
+			split = 0
+		}
+		x.explore(nil, nil, nil, 0, 1<<30, split, nsh == 1)
+		if cfg.Strategy == "hbpor" {
+			res.Notes["hb_states"] = len(x.sleepCache)
+			res.Notes["hb_pruned"] = x.Pruned
+			res.Notes["hb_revisits"] = x.Revisits
+			res.Notes["hb_cache_full"] = x.cacheFull
+		}
+		if !x.stop && cfg.Strategy == "hbpor" {
+			res.Bound = "hbpor: all interleavings of the harness up to commuting independent operations (sleep sets), each happens-before state expanded once"
+		} else if !x.stop {
 			res.Bound = "por: all Mazurkiewicz traces of the harness"
 		} else {
 			res.Exhaustive = false
@@ -555,6 +706,13 @@ func Run(cfg Config, sc Scenario) *reg.Result {
 	} else {
 		for d := 0; d <= cfg.Bound && !x.stop; d++ {
 			x.splitCounter, x.ownCounter = 0, 0
+			if cfg.Strategy == "dbc" {
+				if d < cfg.Bound && d > 0 {
+					continue // with the cache one pass at the target bound covers every level; level 0 is the default schedule alone
+				}
+				x.visited = map[[2]uint64]int16{}
+				x.curBound = d
+			}
 			split := 2
 			if d < 2 {
 				split = d
@@ -580,6 +738,11 @@ func Run(cfg Config, sc Scenario) *reg.Result {
 		res.Bound = fmt.Sprintf("db(%d) completed (all executions with at most %d deviations from the default schedule); target db(%d)", completed, completed, cfg.Bound)
 		res.Notes["db_completed"] = completed
 		res.Notes["db_target"] = cfg.Bound
+		if cfg.Strategy == "dbc" {
+			res.Notes["hb_states"] = len(x.visited)
+			res.Notes["hb_pruned"] = x.Pruned
+			res.Notes["hb_cache_full"] = x.cacheFull
+		}
 	}
 	res.Notes["strategy"] = cfg.Strategy
 	res.Notes["sleep_blocked"] = x.Blocked
